@@ -111,56 +111,257 @@ def run(ctx):
 
 
 def _explain_o1(ctx):
-    ctx.rule('C09.R3', 'explanation path: every loop, comprehension or aggregate over (something derived from) '
-             'cause.pith is either (a) fed from a variable that is a one-element tuple on the O1 arm of a '
-             '`strategy is BeartypeStrategy.O1` test, (b) inside the non-O1 arm, (c) delegated to '
-             'enumerate_cause_items, or (d) the fixed-tuple loop dominated by the length-equality early return')
-    mods = [mn for mn in ctx.repo.modules if mn.startswith('beartype._check.error')] + ['beartype._check.cls.logic.logcls']
-    n = 0
-    for mn in sorted(mods):
-        m = ctx.repo.mod(mn)
-        if 'pith' not in m.src:
+    """R3 by interpretation: every container cause finder, run by the analyser's own interpreter on an abstract cause whose
+    checked object logs what is done to it."""
+    ctx.rule('C09.R3', 'explanation path, decided by interpreting each container cause finder of the sign → finder table '
+             '(one-argument containers per logic class, mappings incl. Counter, fixed tuples) on an abstract cause whose '
+             'checked object records every operation applied to it, with every item conforming (the worst case: the '
+             'finder keeps looking): under the O1 strategy no full iteration of the object or of a view of it takes '
+             'place and at most one item (one key and its value) is read, sampled or not; a fixed tuple is walked only '
+             'after its length was found equal to the number of child hints')
+    n_finders = set()
+    for finder, mm, tag, is_tuple_fixed, n, kids, log in container_finder_runs(ctx):
+        n_finders.add(tag.split(':')[0])
+        full = [w for k, w in log if k == 'full-iteration']
+        items = [w for k, w in log if k == 'item']
+        if is_tuple_fixed and n == kids:
+            ctx.ob('C09.R3', f'{tag}:bounded-by-the-hint', mm.where(finder.node),
+                   'a fixed tuple of the hinted length is walked once (bounded by the hint, not by the object)',
+                   len(full) <= 1 and len(items) <= kids, f'operations on the object: {log}')
             continue
-        for fn in [x for x in ast.walk(m.tree) if isinstance(x, (ast.FunctionDef, ast.AsyncFunctionDef))]:
-            tainted = {}
+        ctx.ob('C09.R3', f'{tag}:no-full-iteration', mm.where(finder.node),
+               'under O1 the explanation never iterates the checked object or a view of it', not full,
+               f'iterates {full[0]} (every item conforming: all {n} items are examined)' if full else '')
+        ctx.ob('C09.R3', f'{tag}:at-most-one-item', mm.where(finder.node),
+               'under O1 at most one item (one key and its value) of the object is read',
+               len(items) <= (0 if is_tuple_fixed else 1), f'reads {items}')
+    ctx.floor('C09.R3', len(n_finders), 6, 'container cause finders interpreted')
 
-            def mentions_pith(e):
-                s = norm(e)
-                return 'cause.pith' in s or 'enumerate_cause_items' in s or any(isinstance(x, ast.Name) and x.id in tainted for x in ast.walk(e))
-            changed = True
-            while changed:
-                changed = False
-                for a in walk_shallow(fn):
-                    if isinstance(a, ast.Assign) and len(a.targets) == 1 and isinstance(a.targets[0], ast.Name):
-                        if a.targets[0].id not in tainted and mentions_pith(a.value) and _iterable_like(a.value):
-                            tainted[a.targets[0].id] = True
-                            changed = True
-            sites = []
-            for x in walk_shallow(fn):
-                if isinstance(x, (ast.For, ast.AsyncFor)) and mentions_pith(x.iter):
-                    sites.append((x, x.iter))
-                elif isinstance(x, (ast.ListComp, ast.SetComp, ast.GeneratorExp, ast.DictComp)):
-                    for gnr in x.generators:
-                        if mentions_pith(gnr.iter):
-                            sites.append((x, gnr.iter))
-                elif isinstance(x, ast.Call) and dotted(x.func) in ('all', 'any', 'sum', 'min', 'max', 'sorted', 'list',
-                                                                   'tuple', 'set', 'frozenset', 'dict') \
-                        and x.args and mentions_pith(x.args[0]) and not isinstance(x.args[0], (ast.GeneratorExp, ast.Tuple)):
-                    sites.append((x, x.args[0]))
-            for x in walk_shallow(fn):
-                # a function that *returns* an enumeration of the object (enumerate_cause_items)
-                if isinstance(x, ast.Return) and isinstance(x.value, ast.Name) and x.value.id in tainted and any(
-                        isinstance(a, ast.Assign) and isinstance(a.targets[0], ast.Name)
-                        and a.targets[0].id == x.value.id and isinstance(a.value, ast.Call)
-                        and dotted(a.value.func) in ('enumerate', 'iter', 'zip', 'reversed')
-                        for a in walk_shallow(fn)):
-                    sites.append((x, x.value))
-            for site, it in sites:
-                n += 1
-                ok, why = _o1_ok(fn, site, it)
-                ctx.ob('C09.R3', f'{mn.split(".")[-1]}.{qualname_of(fn)}:loop over {norm(it)[:60]}', m.where(site),
-                       'iteration over the checked object is O(1) under the O1 strategy', ok, why)
-    ctx.floor('C09.R3', n, 4, 'iterations over the checked object in the explanation path')
+
+def container_finder_runs(ctx):
+    """(finder, module, tag, is_tuple_fixed, n, kids, log of operations on the checked object) for every container cause
+    finder × is_random (× object length for fixed tuples), interpreted under the O1 strategy.  Shared with C03.R3."""
+    from sa.fold import AObj, FuncVal, Inst, Sym, _Abort, _Raise, _call_function
+    from sa.gen import AConf, sign_name
+    G = _gen.engines(ctx)[0]
+    F = G.f
+    table = _gen.cause_finder_table(ctx, F)
+    logic = F.const('beartype._check.cls.logic.logmap', 'HINT_SIGN_PEP484585_CONTAINER_TO_LOGIC')
+    log = []
+
+    class _Item(AObj):
+        def __init__(self, what):
+            self.what = what
+
+        def __repr__(self):
+            return f'<{self.what}>'
+
+    class _Bounded(AObj):
+        """The checked object / a view of it / an iterator over it."""
+
+        def __init__(self, what, n, pairs=False):
+            self.what, self.n, self.pairs = what, n, pairs
+
+        def _item(self, i):
+            return (_Item(f'key {i}'), _Item(f'value {i}')) if self.pairs else _Item(f'item {i}')
+
+        def __len__(self):
+            log.append(('len', self.what))
+            return self.n
+
+        def __getitem__(self, i):
+            log.append(('item', self.what))
+            return _Item(f'item {i}')
+
+        def __iter__(self):
+            log.append(('full-iteration', self.what))
+            return iter([self._item(i) for i in range(self.n)])
+
+        def __contains__(self, x):
+            log.append(('full-iteration', f'{self.what} (membership)'))
+            return True
+
+        def items(self):
+            return _Bounded(f'{self.what}.items()', self.n, pairs=True)
+
+        def values(self):
+            return _Bounded(f'{self.what}.values()', self.n)
+
+        def keys(self):
+            return _Bounded(f'{self.what}.keys()', self.n)
+
+        def __repr__(self):
+            return f'<{self.what}>'
+
+    class _Iter(AObj):
+        def __init__(self, of):
+            self.of = of
+
+        def __iter__(self):
+            log.append(('full-iteration', f'iter({self.of.what})'))
+            return iter([self.of._item(i) for i in range(self.of.n)])
+
+    class _Enum(AObj):
+        def __init__(self, of):
+            self.of = of
+
+        def __iter__(self):
+            log.append(('full-iteration', f'enumerate({self.of.what})'))
+            return iter([(i, self.of._item(i)) for i in range(self.of.n)])
+
+    saved_b, saved_i, saved_stubs = F.builtin_hook, F.isinstance_hook, dict(F.stubs)
+
+    def bh(name, args, kwargs):
+        a0 = args[0] if args else None
+        if isinstance(a0, (_Bounded, _Iter, _Enum)):
+            if name == 'len' and isinstance(a0, _Bounded):
+                return len(a0)
+            if name == 'iter':
+                return _Iter(a0) if isinstance(a0, _Bounded) else a0
+            if name == 'next' and isinstance(a0, _Iter):
+                log.append(('item', a0.of.what))
+                return a0.of._item(0)
+            if name == 'enumerate':
+                return _Enum(a0) if isinstance(a0, _Bounded) else _Enum(a0.of)
+            if name in ('tuple', 'list', 'set', 'frozenset', 'sorted', 'all', 'any', 'sum', 'min', 'max', 'dict', 'reversed', 'zip', 'map', 'filter'):
+                return tuple(iter(a0))
+            if name in ('repr', 'str'):
+                return repr(a0)
+            if name == 'bool':
+                return True
+        if isinstance(a0, _Item) and name in ('repr', 'str'):
+            return repr(a0)
+        if isinstance(a0, (tuple, list)) and len(args) == 1 and not kwargs:
+            if name == 'iter':
+                return tuple(a0)
+            if name == 'enumerate':
+                return tuple(enumerate(a0))
+            if name == 'next' and a0:
+                return a0[0]
+        if name == 'zip' and any(isinstance(x, (_Bounded, _Iter, _Enum)) for x in args):
+            its = [tuple(iter(x)) if isinstance(x, (_Bounded, _Iter, _Enum)) else tuple(x) for x in args]
+            return tuple(zip(*its))
+        return saved_b(name, args, kwargs) if saved_b else NotImplemented
+
+    def ih(obj, cls):
+        if isinstance(obj, (_Bounded, _ACause)):
+            return True
+        return saved_i(obj, cls) if saved_i else None
+
+    class _Found(AObj):
+        _track_attribute_stores = True
+
+        def __init__(self):
+            self.cause_str_or_none = None
+
+    class _Child(AObj):
+        def __init__(self, kw):
+            self.kw = kw
+
+        def find_cause(self):
+            return _Found()
+
+    class _Sane(AObj):
+        def __repr__(self):
+            return '<child hint>'
+
+    class _ACause(AObj):
+        _track_attribute_stores = True
+
+        def __init__(self, sign, kids, n, strategy, is_random):
+            self.hint_curr = Inst('hint-data', ())
+            self.hint_curr = _HC(sign)
+            self.hint_curr_sanified = 'HINT'
+            self.hint_childs_sane = tuple(_Sane() for _ in range(kids))
+            self.pith = _Bounded('the checked object', n)
+            self.conf = AConf(strategy=strategy, is_random=is_random, is_color=False)
+            self.random_int = 7
+            self.exception_prefix = ''
+            self.cause_str_or_none = None
+            self.cause_indent = ''
+
+        def permute_cause(self, **kw):
+            return _Child(kw)
+
+        def sanify_hint_child(self, h):
+            return _Sane()
+
+    class _HC(AObj):
+        def __init__(self, sign):
+            self.hint_sign = sign
+            self.hint = 'HINT'
+    F.builtin_hook, F.isinstance_hook = bh, ih
+    saved_ext = dict(F.ext_stubs)
+
+    def _chain(env, a, k):
+        return tuple(x for it in a for x in (iter(it) if isinstance(it, (_Bounded, _Iter, _Enum)) else it))
+
+    def _islice(env, a, k):
+        src, bounds = a[0], [b for b in a[1:] if b is not None]
+        stop = bounds[0] if len(bounds) == 1 else (bounds[1] if len(bounds) > 1 else None)
+        if isinstance(src, (_Bounded, _Iter, _Enum)) and isinstance(stop, int):
+            of = src if isinstance(src, _Bounded) else src.of
+            out = []
+            for i in range(min(stop, of.n)):
+                log.append(('item', of.what))
+                out.append((i, of._item(i)) if isinstance(src, _Enum) else of._item(i))
+            return tuple(out)
+        return _chain(env, [src], {})
+    F.ext_stubs['itertools.chain'] = _chain
+    F.ext_stubs['itertools.islice'] = _islice
+    for q in ('beartype._util.text.utiltextansi.color_type', 'beartype._util.text.utiltextrepr.represent_object',
+              'beartype._util.text.utiltextrepr.represent_pith', 'beartype._util.text.utiltextprefix.prefix_pith_type'):
+        F.stubs[q] = lambda e, a, k: '<text>'
+    F.stubs['beartype._check.error._nonpep.errnonpeptype.find_cause_type_instance_origin'] = lambda e, a, k: _Found()
+    F.stubs['beartype._check.cls.hint.data.hintdataerror.HintDataError'] = lambda e, a, k: ('hint-data', a)
+    F.stubs['beartype._util.hint.pep.proposal.pep646.pep484585646tuple.is_hint_pep484585646_tuple_empty'] = lambda e, a, k: False
+    confenum = ctx.repo.mod('beartype._conf.confenum')
+    O1 = F.eval_in(confenum, ast.parse('BeartypeStrategy.O1', mode='eval').body)
+    ON = F.eval_in(confenum, ast.parse('BeartypeStrategy.On', mode='eval').body)
+    CONTAINER = {'sequence', 'reiterable', 'quasi', 'deque', 'mapping', 'tuple_fixed', 'tuple-fixed', 'counter'}
+    out = []
+    seen = set()
+    try:
+        for sign, finder in sorted(table.items(), key=lambda kv: sign_name(kv[0])):
+            sname = sign_name(sign)
+            fam = FAMILY.get(sname)
+            is_tuple_fixed = 'TupleFixed' in sname
+            if (fam is None and not is_tuple_fixed) or not isinstance(finder, FuncVal) or finder.qual in F.stubs:
+                continue      # (the shallow isinstance finder touches no item)
+            is_mapping = fam == 'mapping' or sname in ('Counter',)
+            if not (is_tuple_fixed or is_mapping or fam in ('sequence', 'reiterable', 'quasi', 'deque')):
+                continue
+            logic_key = None
+            if not (is_tuple_fixed or is_mapping):
+                lg = logic.get(sign)
+                logic_key = getattr(getattr(lg, 'cls', None), 'name', sname)
+            key = (finder.qual, logic_key if logic_key else ('Counter' if sname == 'Counter' else ''))
+            if key in seen:
+                continue
+            seen.add(key)
+            kids = 2 if (is_tuple_fixed or (is_mapping and sname != 'Counter')) else 1
+            mm = ctx.repo.mod(finder.module)
+            for is_random in (True, False):
+                lens = (5, kids) if is_tuple_fixed else (5,)
+                for n in lens:
+                    del log[:]
+                    cause = _ACause(sign, kids, n, O1, is_random)
+                    try:
+                        _call_function(F, finder, [cause], {}, 1)
+                    except _Raise as ex:
+                        ctx.require(False, f'{finder.qual} raises {ex} on a conforming abstract object')
+                    except _Abort as ex:
+                        ctx.require(False, f'cannot interpret {finder.qual}: {ex}')
+                    tag = f'{finder.qualname}' + (f'[{key[1]}]' if key[1] else '') + f':is_random={is_random}' + (
+                        f':length={"equal" if n == kids else "different"}' if is_tuple_fixed else '')
+                    out.append((finder, mm, tag, is_tuple_fixed, n, kids, list(log)))
+    finally:
+        F.builtin_hook, F.isinstance_hook = saved_b, saved_i
+        F.stubs.clear()
+        F.stubs.update(saved_stubs)
+        F.ext_stubs.clear()
+        F.ext_stubs.update(saved_ext)
+    return out
 
 
 def _iterable_like(e):
